@@ -29,7 +29,7 @@ func subsets(n int) [][]int {
 }
 
 func genC15(r *vc.Run) {
-	r.Rule = "Feldman VSS on secp256k1 and edwards25519 with dealer coefficients fixed through the reader: (t,n) in {(1,2),(1,3),(2,3),(2,4),(3,5)} with every subset of shares reconstructed, id patterns {small, >= q, id = q, congruent mod q, 0}, every single alteration of share value / id / commitment coordinate, share verified under every other id; non-trivial = all cases; direct oracles: reconstruct(subset >= t+1) = secret, no altered component accepted, dealing refused for bad ids"
+	r.Rule = "Feldman VSS on secp256k1 and edwards25519 with dealer coefficients fixed through the reader: (t,n) in {(1,2),(1,3),(2,3),(2,4),(3,5)} with every subset of shares reconstructed (also permuted, and the pointwise unreduced sum of two dealings), id patterns {small, >= q, id = q, congruent mod q, 0}, every single alteration of share value / id / commitment coordinate, share verified under every other id; non-trivial = all cases; direct oracles: reconstruct(subset >= t+1, any order) = secret, reconstruct(dealing A + dealing B) = secret A + secret B, no altered component accepted, dealing refused for bad ids"
 	g := rng{r}
 	for _, cn := range []string{"secp256k1", "ed25519"} {
 		q := curveByName(cn).Params().N
@@ -57,6 +57,8 @@ func genC15(r *vc.Run) {
 				if cn == "ed25519" {
 					secrets = append(secrets, big.NewInt(0))
 				}
+				var prevShares []*big.Int
+				var prevSecret *big.Int
 				for _, secret := range secrets {
 					coefs := make([]*big.Int, t)
 					for i := range coefs {
@@ -153,6 +155,45 @@ func genC15(r *vc.Run) {
 							r.Violate("vss-too-few-reconstruct|"+cn, fmt.Sprintf("%d < t+1 shares reconstruct the secret", len(sub)), vc.Line("vss_create", cargs), vc.Line("vss_reconstruct", ra))
 						}
 					}
+					// committee independence (reconstruct_subset_independent): the reversed full set and a rotated
+					// (t+1)-subset give the same secret as the ordered ones
+					perms := [][]int{}
+					rev := make([]int, n)
+					for i := range rev {
+						rev[i] = n - 1 - i
+					}
+					perms = append(perms, rev)
+					rot := make([]int, t+1)
+					for i := range rot {
+						rot[i] = (i + n - 1) % n
+					}
+					perms = append(perms, rot)
+					for _, sub := range perms {
+						var sh []val.V
+						for _, i := range sub {
+							sh = append(sh, val.L(val.I64(int64(t)), val.I(ids[i]), val.I(shares[i])))
+						}
+						ra := []val.V{val.A(cn), val.List(sh)}
+						o := r.Case("reconstruct-permuted/"+cn, true, "vss_reconstruct", ra...)
+						if want := new(big.Int).Mod(secret, q); o.String() != val.Ok(val.I(want)).String() {
+							r.Violate("vss-reconstruct-order|"+cn, "a permuted qualifying share set does not reconstruct the secret: "+o.String(), vc.Line("vss_create", cargs), vc.Line("vss_reconstruct", ra))
+						}
+					}
+					// additivity (reconstruct_additive): the pointwise, unreduced sum of this dealing and the previous one on
+					// the same ids reconstructs the sum of the two secrets
+					if prevShares != nil {
+						var sh []val.V
+						for i := 0; i < n; i++ {
+							sh = append(sh, val.L(val.I64(int64(t)), val.I(ids[i]), val.I(new(big.Int).Add(shares[i], prevShares[i]))))
+						}
+						ra := []val.V{val.A(cn), val.List(sh)}
+						o := r.Case("reconstruct-sum/"+cn, true, "vss_reconstruct", ra...)
+						want := new(big.Int).Mod(new(big.Int).Add(secret, prevSecret), q)
+						if o.String() != val.Ok(val.I(want)).String() {
+							r.Violate("vss-reconstruct-sum|"+cn, "the sum of two dealings does not reconstruct the sum of the secrets: "+o.String(), vc.Line("vss_create", cargs), vc.Line("vss_reconstruct", ra))
+						}
+					}
+					prevShares, prevSecret = shares, secret
 				}
 			}
 			// refused id sets
